@@ -96,6 +96,7 @@ def settings(rng):
         "enforce_unique_trees_in_queue": rng.random() < 0.5,
         "tree_insertion_methods": rng.choice([None, None, 1, 2, 3, 4, 5, 6, 7]),
         "max_number_tree_insertion_results": rng.choice([1, 5]),
+        "activate_unsat_support": rng.random() < 0.15,
     }
 
 
